@@ -275,7 +275,9 @@ def run(case):
             w.model[DEFAULT].add(tkey(t))
         elif name == "add4":
             t = w.t(op[1:4]); gn = w.gname(op[4])
-            r = sut(ds.add, t + (w.garg(gn, op[5]),))
+            # (the default graph of a Dataset also as "no graph": an optional quad whose fourth member is None)
+            garg = None if (op[5] == 3 and gn == DEFAULT and w.cfg != "cg") else w.garg(gn, op[5])
+            r = sut(ds.add, t + (garg,))
             w.model.setdefault(gn, set()).add(tkey(t))
         elif name in ("addN", "iadd"):
             if name == "iadd" and w.cfg == "cg":
@@ -380,7 +382,7 @@ def strategy(tier):
     op = st.one_of(
         st.tuples(st.just("add3"), si, pi, oi),
         st.tuples(st.just("add4"), si, pi, oi, gi, how),
-        st.tuples(st.just("add4"), si, pi, oi, gi, how),
+        st.tuples(st.just("add4"), si, pi, oi, gi, st.integers(0, 3)),
         st.tuples(st.just("addN"), st.lists(st.tuples(si, pi, oi, gi).map(list), max_size=3)),
         st.tuples(st.just("iadd"), st.lists(st.tuples(si, pi, oi, st.integers(0, 11)).map(list), max_size=3)),
         st.tuples(st.just("rm3"), wsi, wpi, woi),
